@@ -128,6 +128,25 @@ impl<F: CircuitField> AssignedBigUint<F> {
     }
 }
 
+/// Verification hooks (feature `verif-hooks`, default off, add-only).
+#[cfg(feature = "verif-hooks")]
+impl<F: CircuitField> AssignedBigUint<F> {
+    /// The assigned limbs (little-endian, base `2^LOG2_BASE`).
+    pub fn verif_limbs(&self) -> Vec<AssignedNative<F>> {
+        self.limbs.clone()
+    }
+
+    /// The tracked limb size bounds.
+    pub fn verif_limb_size_bounds(&self) -> Vec<u32> {
+        self.limb_size_bounds.clone()
+    }
+
+    /// `LOG2_BASE` of the representation.
+    pub fn verif_log2_base() -> u32 {
+        LOG2_BASE
+    }
+}
+
 /// Given bounds which limit the size of two integers, returns a bound on the
 /// size of their sum. Concretely, it returns the smallest integer `bound` such
 /// that the sum of an integer in the range `[0, 2^bound1)` with an integer in
